@@ -122,6 +122,29 @@ pub fn exec(kv: &Kv) -> String {
                     v
                 )
             }
+            "wp" => {
+                // write_into a dirty buffer of exactly byte_len() bytes, then read it back
+                let fill = u8::from_str_radix(p[1], 16).unwrap();
+                let mut dest = vec![fill; b.byte_len()];
+                match b.write_into(&mut dest) {
+                    Err(e) => werr(&e),
+                    Ok(k) => {
+                        let v = if p[2] == "-" {
+                            "-".to_string()
+                        } else {
+                            match Message::from_bytes(&dest[..k]) {
+                                Err(_) => "noparse".into(),
+                                Ok(m) => match m.validate_integrity(&parse_creds(p[2])) {
+                                    Ok(IntegrityAlgorithm::Sha1) => "ok_sha1".into(),
+                                    Ok(IntegrityAlgorithm::Sha256) => "ok_sha256".into(),
+                                    Err(e) => parse_err(&e).replace(' ', "_"),
+                                },
+                            }
+                        };
+                        format!("wp={},v={}", parse_short(&dest[..k]), v)
+                    }
+                }
+            }
             "w" => {
                 let n: usize = p[1].parse().unwrap();
                 let fill = u8::from_str_radix(p[2], 16).unwrap();
@@ -192,7 +215,8 @@ fn add_op(rng: &mut Rng, used: &mut Vec<u16>, allow_dup: bool) -> String {
             let f = rand_fields(rng, k);
             return format!("a/{}/{}", k, f);
         } else {
-            let ty = match rng.below(4) {
+            let ty = match rng.below(5) {
+                4 => *rng.pick(&[0x0000u16, 0x0001, 0x7fff, 0x8000, 0xffff, 0x0007, 0x8029 ^ 0x0100]),
                 0 => 0x7f00 + rng.below(3) as u16,
                 1 => 0xff00 + rng.below(3) as u16,
                 2 => kind_code(*rng.pick(&ORD_KINDS)),
@@ -274,6 +298,9 @@ pub fn gen_rt(rng: &mut Rng, count: usize, thorough: bool, out: &mut Vec<String>
         let ts = types_of(&ops);
         ops.push(format!("q/{}/{}", ts, if seal == 0 { "-".to_string() } else { cred.clone() }));
         ops.push("t".into());
+        // the in-place path into a dirty buffer must give a message that reads back the same
+        let fill = *rng.pick(&["ff", "5a", "01"]);
+        ops.push(format!("wp/{}/{}", fill, if seal == 0 { "-".to_string() } else { cred.clone() }));
         if seal != 0 {
             // a different key must not validate
             ops.push(format!("q/-/{}", rand_creds(rng)));
